@@ -14,7 +14,7 @@ sys.path.insert(0, VERIF)
 from tools import canary as ctool
 
 os.environ.setdefault('VERIF_CANARY_TARGET', '/verif/.cache/target-seedeval')
-ENV = dict(os.environ, CARGO_NET_OFFLINE='true', CARGO_TARGET_DIR='/tmp/seed/target-eval')
+ENV = dict(os.environ, CARGO_NET_OFFLINE='true', CARGO_TARGET_DIR=os.environ.get('SEEDEVAL_TARGET', '/tmp/seed/target-eval'))
 
 
 def sh(cmd, cwd, timeout=1800):
@@ -92,7 +92,8 @@ def main():
     summary = {'dir': d, 'property': meta.get('property'), 'summary': meta.get('summary', '')[:300]}
     if '--skip-confirm' not in sys.argv:
         summary['confirm'] = confirm(d, meta)
-    summary['reported_by'] = run_checks(d)
+    if '--skip-checks' not in sys.argv:
+        summary['reported_by'] = run_checks(d)
     print(json.dumps(summary, indent=1))
 
 
